@@ -568,12 +568,6 @@ func genPow() {
 	g.rest(p2, "powv2")
 	g.write()
 }
-func genMisc() {
-	genAddress()
-	genSlip10()
-	genEd()
-}
-
 func genSlip10() {
 	p := repoPkg("pkg/slip10")
 	el := repoPkg("pkg/slip10/elliptic")
